@@ -40,7 +40,7 @@ def run (env : Env) (rest : String) : String :=
   | name :: tc :: alt :: w :: h :: _ =>
     let opsStr := (rest.drop (name.length + tc.length + alt.length + w.length + h.length + 5)).toString
     let ops := splitTrim opsStr ";"
-    let (base, lg) := Draw.splitVariant name
+    let (base, lg, fz) := Draw.splitVariants name
     match env.lookup base with
     | none => "no-entry"
     | some ti0 =>
@@ -48,7 +48,7 @@ def run (env : Env) (rest : String) : String :=
       let ti := Draw.prepTi ti0 tcb
       let fit := (ops.filterMap fun o => match words o with | ["FIT", t] => some (Draw.parsePairs t) | _ => none).flatten
       let fit0 := (ops.filterMap fun o => match words o with | ["FIT0", t] => some (Draw.parsePairs t) | _ => none).flatten
-      let (dc, rc) := Draw.mkCfgs env ti tcb fit fit0 lg
+      let (dc, rc) := Draw.mkCfgs env ti tcb fit fit0 lg fz
       let cf : ModeCfg := { dc := dc, caps := Modes.ModeCaps.of ti rc.d, altscreen := alt = "1" }
       let emit (out : Array String) (tag : String) (evs : List Ev) : Array String :=
         let l := Modes.renderEvs rc evs
